@@ -48,6 +48,7 @@ type Step struct {
 	AccAlias bool    `json:"accAlias,omitempty"` // MulThenAdd with ct operand: use op0 as accumulator (documented error)
 	OutLevel int     `json:"outLevel,omitempty"` // fresh output: 0 natural level, 1 maximum level, 2 natural-1
 	OutDeg   int     `json:"outDeg,omitempty"`   // fresh output of Add/Sub: 0 natural degree, 1 degree 2
+	OutReg   int     `json:"outReg,omitempty"`   // non-New forms: 0 fresh output; k>0 an existing pool ciphertext other than the inputs (even k prefers one of degree 2)
 	N        int     `json:"n,omitempty"`        // DropLevel: number of levels (reduced mod level+1)
 	Deg0     bool    `json:"deg0,omitempty"`     // use a degree-0 ciphertext as op0 (plaintext-only operands: documented error)
 }
@@ -355,6 +356,9 @@ func genProg(t *rapid.T) ProgCase {
 				if rapid.IntRange(0, 5).Draw(t, l+"_od") == 5 {
 					s.OutDeg = 1
 				}
+			}
+			if r := rapid.IntRange(0, 13).Draw(t, l+"_oreg"); r >= 8 {
+				s.OutReg = r - 7 // 1..6
 			}
 		}
 		switch s.Op {
